@@ -15,7 +15,13 @@ ENV = {
     "duration": ("PASSAGE_RATELIMITER_DURATION", ["3", "45"], lambda g: str(g["rate_limiter"]["duration"]) if isinstance(g["rate_limiter"], dict) else "<none>"),
     "allow_v1": ("PASSAGE_PROXYPROTOCOL_ALLOWV1", ["false", "true"], lambda g: str(g["proxy_protocol"]["allow_v1"]).lower() if isinstance(g["proxy_protocol"], dict) else "<none>"),
     "allow_v2": ("PASSAGE_PROXYPROTOCOL_ALLOWV2", ["false", "true"], lambda g: str(g["proxy_protocol"]["allow_v2"]).lower() if isinstance(g["proxy_protocol"], dict) else "<none>"),
-    "server_id": ("PASSAGE_ADAPTERS_AUTHENTICATION_MOJANG_SERVERID", ["lobby-1", "007", "1.50", "true", "0x1F", "1e3", "-0", "9007199254740993"], lambda g: g["server_id"]),
+    "server_id": ("PASSAGE_ADAPTERS_AUTHENTICATION_MOJANG_SERVERID", ["lobby-1", "007", "1.50", "true", "0x1F", "1e3", "-0", "9007199254740993",
+                                                                       "", " ", " lobby", "lobby ", "lobby\t", "my lobby"], lambda g: g["server_id"]),
+}
+
+# what a configuration FILE underneath says about the field (the environment layer is on top of it); fields not listed: nothing
+FILE_UNDERNEATH = {
+    "server_id": '[adapters.authentication.mojang]\nserverid = "from-file"\n',
 }
 
 
@@ -28,9 +34,13 @@ def observe(fields, wd):
     recs = []
     for f in fields:
         var, values, read = ENV[f]
-        for v in values:
+        layers = [("empty.toml", values)]
+        if f in FILE_UNDERNEATH:
+            open(os.path.join(cdir, f + ".toml"), "w").write(FILE_UNDERNEATH[f])
+            layers.append((f + ".toml", values))
+        for fname, v in [(fn, v) for fn, vs in layers for v in vs]:
             env = {k: x for k, x in os.environ.items() if not k.startswith("PASSAGE_")}
-            env["CONFIG_FILE"] = os.path.join(cdir, "empty.toml")
+            env["CONFIG_FILE"] = os.path.join(cdir, fname)
             env["AUTH_SECRET_FILE"] = os.path.join(cdir, "absent")
             env[var] = v
             p = subprocess.run([ha, "config"], env=env, cwd=cdir, stdout=subprocess.PIPE, stderr=subprocess.PIPE, timeout=60)
@@ -39,7 +49,7 @@ def observe(fields, wd):
                 got = read(g) if g.get("ok") else "error: " + g.get("error", "")[:120]
             except Exception as e:  # noqa
                 got = "error: no output (%s)" % p.stderr.decode()[-120:]
-            recs.append({"kind": "env", "field": f, "var": var, "given": v, "got": got})
+            recs.append({"kind": "env", "field": f, "var": var, "given": v, "got": got, "file": "none" if fname == "empty.toml" else "defines it too"})
     return recs
 
 
